@@ -1149,11 +1149,12 @@ static void walk_ports_recurse0(const Port& p, char* name_buffer,
         assert(isdigit(*read_head));
         for(;isdigit(*read_head); ++read_head) {}
 
-        if(*read_head == '/') { ++read_head; }
+        //whatever follows the number (a '/' or more text) is appended as it
+        //is by the recursion
         if(ranges)
         {
             assert(write_space > 32);
-            int written = snprintf(write_head,32,"[0,%d]/", max-1);
+            int written = snprintf(write_head,32,"[0,%d]", max-1);
             //Recurse
             walk_ports_recurse0(p, name_buffer, buffer_size, base, data, walker,
                                 runtime, old_end, write_head + written,
@@ -1162,7 +1163,7 @@ static void walk_ports_recurse0(const Port& p, char* name_buffer,
         else for(unsigned i=0; i<max; ++i)
         {
             assert(write_space > 32);
-            int written = snprintf(write_head,32,"%d/",i);
+            int written = snprintf(write_head,32,"%d",i);
             //Recurse
             walk_ports_recurse0(p, name_buffer, buffer_size, base, data, walker,
                                 runtime, old_end, write_head + written,
